@@ -22,7 +22,7 @@ class Crash(Unknown):
 
 
 class Interp:
-    def __init__(self, call_hook=None, effect_names=(), budget=20000, resolver=None, depth=0, store_effects=(), attr_hook=None, try_normal_path=False):
+    def __init__(self, call_hook=None, effect_names=(), budget=20000, resolver=None, depth=0, store_effects=(), attr_hook=None, try_normal_path=False, with_targets=False):
         """call_hook(call_node, args, env) -> (True, value) | None.  effect_names: callee names whose calls are
         observable effects (recorded with evaluated args)."""
         self.call_hook = call_hook
@@ -34,6 +34,7 @@ class Interp:
         self.store_effects = set(store_effects)   # attribute texts whose assignments are observable effects, recorded in order as ('store', (text, value), node)
         self.depth = depth
         self._seen_calls = set()
+        self.with_targets = with_targets        # bind `with E as name` targets to the value of E (context managers that return themselves)
         self.try_normal_path = try_normal_path      # interpret `try` statements along their no-exception path (body, else, finally); handlers are not entered
         self.attr_hook = attr_hook      # attr_hook(base value, attribute name, interp) -> (True, value) | None, for attribute loads whose text is not an environment fact
 
@@ -211,6 +212,20 @@ class Interp:
             base = self.value(fn.value, env)
             if isinstance(base, (list, set)):
                 return (True, base.copy())
+        if isinstance(fn, ast.Attribute) and fn.attr in ('index', 'count') and len(n.args) == 1 and not n.keywords:
+            try:
+                base = self.value(fn.value, env)
+            except Unknown:
+                base = None
+            if isinstance(base, (list, tuple)):
+                a = self.value(n.args[0], env)
+                if isinstance(a, Opaque):
+                    raise Unknown('%s of an uncomputable element (%s)' % (fn.attr, loc(n)))
+                if fn.attr == 'count':
+                    return (True, base.count(a))
+                if a not in base:
+                    raise Crash('%s raises ValueError: %r is not in the list (%s)' % (unparse(n)[:60], a, loc(n)))
+                return (True, base.index(a))
         if isinstance(fn, ast.Attribute) and fn.attr in ('setdefault', 'pop') and 1 <= len(n.args) <= 2 and not n.keywords:
             try:
                 base = self.value(fn.value, env)
@@ -252,7 +267,7 @@ class Interp:
         missing = [p for p in params if p not in e2]
         if missing:
             raise Unknown('call of %s without a value for %s' % (callee.name, missing))
-        sub = Interp(self.call_hook, self.effect_names, self.budget, self.resolver, self.depth + 1, self.store_effects, self.attr_hook, self.try_normal_path)
+        sub = Interp(self.call_hook, self.effect_names, self.budget, self.resolver, self.depth + 1, self.store_effects, self.attr_hook, self.try_normal_path, self.with_targets)
         finals = sub.run(callee.body, e2)
         if len(finals) == 1 and finals[0].get('<crash>'):
             raise Crash(finals[0]['<crash>'])
@@ -640,6 +655,16 @@ class Interp:
             e['<jump>'] = 'continue' if isinstance(st, ast.Continue) else 'break'
             return [], [e]
         if isinstance(st, ast.With):
+            if self.with_targets:
+                for item in st.items:
+                    if item.optional_vars is not None:
+                        try:
+                            v = self.value(item.context_expr, e)
+                        except Crash:
+                            raise
+                        except Unknown:
+                            v = Opaque()
+                        self._assign(item.optional_vars, v, e)
             return self._block(st.body, [e])
         if isinstance(st, ast.Try) and self.try_normal_path:
             f1, n1 = self._block(st.body, [e])
